@@ -321,6 +321,10 @@ def emit(e: E, o: Opts, scope, ascii_only, latin1, top=False):
         if (ans, al) in e.pad_attrs and o.pad and rng.random() < 0.5:
             v = rng.choice([" ", "  ", "\t"]) + v + rng.choice([" ", "\n", ""])
             o.applied.add("pad-attribute")
+        if ans == "http://www.w3.org/2001/XMLSchema-instance" and al == "nil" and o.pad and v in ("true", "false") and rng.random() < 0.4:
+            # xsi:nil is a xs:boolean: 1/0 and surrounding whitespace are the same value
+            v = rng.choice([{"true": "1", "false": "0"}[v], f" {v}", f"{v}\n", f" {'1' if v == 'true' else '0'} "])
+            o.applied.add("respell-xsi-nil")
         an = f"{apfx}:{al}" if apfx else al
         attr_strs.append(f"{an}={quote}{esc_attr(v, o, quote, ascii_only, latin1)}{quote}")
     # content
@@ -439,6 +443,8 @@ def meaning(el, marks: E):
             attrs[k] = ("qname", resolve(v, el.nsmap))
         elif (ans, al) in marks.pad_attrs:
             attrs[k] = v.strip(" \t\r\n")
+        elif (ans, al) == (xmlkit.XSI, "nil") and v.strip(" \t\r\n") in ("true", "false", "1", "0"):
+            attrs[k] = ("bool", v.strip(" \t\r\n") in ("true", "1"))  # xs:boolean value space
         else:
             attrs[k] = v
     has_kids = bool(node_kids)
